@@ -3,6 +3,7 @@
    the three SeekFrom arms of CallbackInputRead::seek, the value the request length of
    CallbackInputRead::read is clamped to when buf.len() does not fit a u32, and that
    `iter.sort()` stands before the loop that calls the file callback. *)
+From MLA Require Import Limit.
 From MLA Require Import Base CApi CApiRead.
 From MLAGen Require Src.
 Open Scope N_scope.
